@@ -194,6 +194,13 @@ Definition new_text (toks : list token) (p0 : pos) : textst :=
   | None => mkText [] p0 false [] [] (0,0) [] []
   end.
 
+(* the name of the close tag that ends raw text: '/' followed by the name AS WRITTEN (the blank-free copy of the close tag
+   without its "</" and ">"), not the lower-cased name of the open tag *)
+Definition written_close_name (namebuf : str) : str :=
+  let a := if prefixb [cLT; cSLASH] namebuf then skipn 2 namebuf else namebuf in
+  let b := match rev a with g :: r => if N.eqb g cGT then rev r else a | [] => a end in
+  cSLASH :: b.
+
 Definition text_step (toks : list token) (x : textst) (r : rune) (p0 p1 : pos) : tres :=
   if x_raw x then
     let closing0 := match x_tagbuf x with [] => false | _ => true end in
@@ -212,7 +219,7 @@ Definition text_step (toks : list token) (x : textst) (r : rune) (p0 p1 : pos) :
         if N.eqb r cGT then
           let textv := firstn (length (x_buf x) + 1 - length tagbuf) (x_buf x) in
           let t1 := mkTok KText textv (x_start x) (x_end x) [] [] in
-          let t2 := mkTok KTag tagbuf (x_end x) p1 (cSLASH :: x_rawname x) [] in
+          let t2 := mkTok KTag tagbuf (x_end x) p1 (written_close_name namebuf) [] in
           match textv with
           | [] => TR (t2 :: toks) MInit false          (* <script></script>: no empty text token *)
           | _ => TR (t2 :: t1 :: toks) MInit false
